@@ -4,6 +4,7 @@ import (
 	"bytes"
 	"fmt"
 	"math/big"
+	"sync"
 
 	multiproof "github.com/crate-crypto/go-ipa"
 	"github.com/crate-crypto/go-ipa/bandersnatch/fr"
@@ -56,14 +57,22 @@ type implStmt struct {
 }
 
 // commitCache: commitments of the alphabet polynomials (per worker).
-var commitCache = map[string]banderwagon.Element{}
+var (
+	commitCache   = map[string]banderwagon.Element{}
+	commitCacheMu sync.Mutex
+)
 
 func commitOf(c *ipa.IPAConfig, p namedPoly) banderwagon.Element {
-	if e, ok := commitCache[p.Name]; ok {
+	commitCacheMu.Lock()
+	e, ok := commitCache[p.Name]
+	commitCacheMu.Unlock()
+	if ok {
 		return e
 	}
-	e := c.Commit(frsFromBig(p.V))
+	e = c.Commit(frsFromBig(p.V))
+	commitCacheMu.Lock()
 	commitCache[p.Name] = e
+	commitCacheMu.Unlock()
 	return e
 }
 
